@@ -95,14 +95,15 @@ def _space(runs, hists, depth, full=False, bound=None, budget=None):
 H0, HA, HB, HAB = [], ["A"], ["B"], ["A", "B"]
 SPACES = {
     "quick": [
-        _space(["A", "B", "C", "D"], [H0, HA, HB], 0),
+        _space(["A", "B"], [H0, HA, HB], 0),
+        _space(["C", "D"], [H0, HA], 0),
         _space(["AA", "AB"], [H0, HA, HB], 1),
-        _space(["AC"], [H0, HA], 1),
+        _space(["AC"], [H0], 1),
         _space(["AD"], [H0], 2),
         _space(["AAA"], [H0], 2),
-        _space(["AAB"], [H0], 2, bound=2),
-        _space(["AAA"], [HA], 2, bound=2),
-        _space(["AA", "AB"], [H0, HA], 2, full=True, budget=60),
+        _space(["AAB"], [H0], 2, bound=1),
+        _space(["AA", "AB"], [H0], 2, full=True, budget=60),
+        _space(["AA"], [HA], 2, full=True, budget=60),
     ],
     "thorough": [
         _space(["A", "B", "C", "D"], [H0, HA, HB, ["A", "A"], HAB, ["D"]], 0),
@@ -171,7 +172,7 @@ def spec_key(spec):
 # ---------------------------------------------------------------------------
 # executing one schedule on the real code
 # ---------------------------------------------------------------------------
-_STATE = {"base": None, "count": 0, "hist": {}, "ref": {}}
+_STATE = {"base": None, "count": 0, "hist": {}, "ref": {}, "parsed": {}}
 
 
 def init_worker(_tier):
@@ -183,8 +184,14 @@ def _repo():
     return os.environ.get("VERIF_REPO", "/repo")
 
 
-def build(typ):
-    """Fresh PSy object of run type ``typ`` with its kernels transformed."""
+def build(typ, fresh_parse=False):
+    """Fresh PSy object of run type ``typ`` with its kernels transformed.
+    The PSy object, its schedule, the kernel parse trees and kernel PSyIR are
+    created anew on every call.  The result of ``parse`` (algorithm call list
+    + kernel metadata, only read by PSyFactory.create) is computed once per
+    worker unless ``fresh_parse``: it is 2/3 of the cost.  Every work item
+    re-executes one of its schedules with ``fresh_parse`` and demands
+    identical observations, which validates the sharing."""
     # pylint: disable=import-outside-toplevel
     from psyclone.configuration import Config
     from psyclone.parse.algorithm import parse
@@ -192,7 +199,12 @@ def build(typ):
     from psyclone.transformations import ACCRoutineTrans, OMPDeclareTargetTrans
     Config.get().api = "gocean"
     desc = TYPES[typ]
-    _, info = parse(os.path.join(_repo(), GOCEAN, desc["alg"]), api="gocean")
+    if fresh_parse or desc["alg"] not in _STATE["parsed"]:
+        _, info = parse(os.path.join(_repo(), GOCEAN, desc["alg"]), api="gocean")
+        if not fresh_parse:
+            _STATE["parsed"][desc["alg"]] = info
+    else:
+        info = _STATE["parsed"][desc["alg"]]
     psy = PSyFactory("gocean", distributed_memory=False).create(info)
     kerns = psy.invokes.invoke_list[0].schedule.coded_kernels()
     for idx, (base, _) in zip(desc["kernels"], desc["variants"]):
@@ -223,12 +235,12 @@ def cleanup():
         _STATE["base"] = None
 
 
-def execute(spec, histfiles, prefix, expect):
-    """One execution of the real code: fresh PSy objects rebuilt from source
-    (parse + PSyFactory.create + transformation; copy.deepcopy of a PSy object
-    fails), a fresh scratch directory holding ``histfiles``, the runs as
-    threads under the baton.  Returns the record of Baton.run plus the final
-    directory content, or None for an infeasible blind prefix."""
+def execute(spec, histfiles, prefix, expect, fresh_parse=False):
+    """One execution of the real code: fresh PSy objects (see ``build``;
+    copy.deepcopy of a PSy object fails), a fresh scratch directory holding
+    ``histfiles``, the runs as threads under the baton.  Returns the record
+    of Baton.run plus the final directory content, or None for an infeasible
+    blind prefix."""
     # pylint: disable=import-outside-toplevel
     import psyclone.psyGen as psygen
     from psyclone.configuration import Config
@@ -237,7 +249,7 @@ def execute(spec, histfiles, prefix, expect):
         for name, text in histfiles.items():
             with open(os.path.join(outdir, name), "w", encoding="utf-8") as fout:
                 fout.write(text)
-        psys = [build(t) for t in spec["runs"]]
+        psys = [build(t, fresh_parse) for t in spec["runs"]]
         cfg = Config.get()
         cfg.api = "gocean"
         cfg._kernel_output_dir = outdir           # pylint: disable=protected-access
@@ -593,10 +605,11 @@ def run_case(case):
         # one schedule of this item is executed a second time from its
         # recorded thread-id list: the observations must be identical.
         sched, rec = last
-        again = execute(spec, histfiles, sched, [s["op"] for s in rec["steps"]])
+        again = execute(spec, histfiles, sched, [s["op"] for s in rec["steps"]],
+                        fresh_parse=True)
         if _observation(again) != _observation(rec):
             raise HarnessError(f"second execution of {spec_key(spec)} {sched} "
-                               f"gave different observations")
+                               f"(from a fresh parse) gave different observations")
         res["validated"] += 1
         res["extra"]["schedules_executed_twice"] = 1
         res["sample"] = {"config": spec_key(spec), "schedule": sched,
@@ -653,7 +666,7 @@ def replay(case):
     spec, sched = case["spec"], case["schedule"]
     try:
         histfiles = history_files(spec["scheme"], spec["hist"])
-        rec = execute(spec, histfiles, sched, None)
+        rec = execute(spec, histfiles, sched, None, fresh_parse=True)
         if rec is None or [s["c"] for s in rec["steps"]] != sched:
             raise HarnessError("the recorded schedule is not feasible any more")
         found, cls = judge(spec, rec, histfiles)
